@@ -251,6 +251,12 @@ pub fn finish(prop: &str, tier: Tier, reports: Vec<FamilyReport>, n_self: usize,
         }
     }
     for (sig, f) in &all_found {
+        if sig.contains(":MACHINERY:") {
+            eprintln!("machinery: {}: {}", sig, f.detail);
+            return 2;
+        }
+    }
+    for (sig, f) in &all_found {
         if f.prop != prop {
             continue;
         }
